@@ -41,8 +41,18 @@ def run_case(cs, ctx):
             n2 = 50
         else:
             v['n1'] = 50
+        if v['mp'] != 'sm' and rng.random() < 0.3:
+            # many rankable agents, short lists of one fixed length
+            n2 = v['n2'] = rng.randint(20, 40)
+            v['uq'] = n2 + rng.randint(0, 5)
+            v.pop('lq', None)
+            if v['mp'] == 'spa':
+                v['n3'] = min(v['n3'], n2)
+            ctx.cov('coverage_run_with_20_or_more_rankable_agents')
         width = rng.randint(2, min(6, n2)) if n2 >= 2 else 1
-        v['pmin'] = rng.randint(1, n2 - width + 1)
+        if n2 >= 20 and rng.random() < 0.7:
+            width = 1
+        v['pmin'] = rng.randint(1, n2 - width + 1) if n2 < 20 else rng.randint(2, 3)
         v['pmax'] = v['pmin'] + width - 1
         if v['mp'] == 'spa':
             v['luq'] = max(v['luq'], 1)
@@ -54,6 +64,12 @@ def run_case(cs, ctx):
         v = ge.legal_vector(rng)
         if rng.random() < 0.05:
             v['numinst'] = rng.randint(10, 13)      # two-digit file names
+        if cs % 150 == 77 and v['mp'] in ('ha', 'hr'):
+            # a first-side list with more than 1000 entries
+            v.update({'n1': 2, 'n2': 1200, 'pmin': rng.randint(1050, 1150), 'uq': 1200, 'numinst': 1, 't1': rng.choice([0.0, None, 0.2])})
+            v['pmax'] = v['pmin']
+            v.pop('lq', None)
+            ctx.cov('first_side_list_longer_than_1000')
     outdir = ge.fresh_outdir(ctx.workdir, 'c08')
     argv = ge.to_argv(v, outdir, rng)
     case = {'cs': cs, 'vector': v, 'argv': [a if a != outdir else '<outdir>' for a in argv]}
